@@ -236,7 +236,15 @@ var property = "C??"
 // Property sets the property id of this test package (call from init).
 func Property(id string) { property = id }
 
+func capErr(err error) error {
+	if s := err.Error(); len(s) > 2000 {
+		return fmt.Errorf("%s…(%d more characters)", s[:2000], len(s)-2000)
+	}
+	return err
+}
+
 func writeViolation(subName string, c any, err error) {
+	err = capErr(err)
 	b, merr := json.Marshal(c)
 	if merr != nil {
 		b, _ = json.Marshal(fmt.Sprintf("%+v", c))
@@ -278,7 +286,7 @@ func Register[C any](s Sub[C]) {
 			c := s.Gen(rt)
 			if err := guard(s.Check, c); err != nil {
 				writeViolation(x.name, c, err)
-				rt.Fatalf("%s/%s: %v", property, x.name, err)
+				rt.Fatalf("%s/%s: %v", property, x.name, capErr(err))
 			}
 		})
 	}
@@ -317,7 +325,7 @@ func RegisterEnum[C any](e Enum[C]) {
 		st.Exhaustive = e.Exhaustive && first == nil
 		mu.Unlock()
 		if first != nil {
-			t.Fatalf("%s/%s: %v", property, x.name, first)
+			t.Fatalf("%s/%s: %v", property, x.name, capErr(first))
 		}
 	}
 	x.replay = func(raw json.RawMessage) error {
@@ -382,6 +390,11 @@ func Probe(id string, run func() error) {
 
 func evalKnown() {
 	knownOnce.Do(func() {
+		mu.Lock()
+		prev := cur
+		cur = "probes"
+		mu.Unlock()
+		defer func() { mu.Lock(); cur = prev; mu.Unlock() }()
 		loadKnown()
 		for _, p := range probes {
 			if _, ok := knownListed[p.id]; !ok {
@@ -523,7 +536,7 @@ func ReplayAll(t *testing.T) {
 			var c any
 			json.Unmarshal(rf.Case, &c)
 			writeViolation(rf.Sub, c, err)
-			t.Errorf("REPLAY-FAIL %s: %v", f, err)
+			t.Errorf("REPLAY-FAIL %s: %v", f, capErr(err))
 		}
 	}
 }
